@@ -7,7 +7,7 @@
    a basic kind is reported as a bad verb by printArg WITHOUT reaching the dispatch, so it does
    not cancel a capture made by another %w; %#w keeps '#' as the plain flag, so it prints the
    error text where %#v prints Go syntax. *)
-From Redact Require Import Bytes Tokens Utf8 Buffer Ops BufInv LBuf Printer Api WrapP.
+From Redact Require Import Bytes Tokens Utf8 Buffer Ops BufInv LBuf Printer Api WrapP NestedWrapP.
 Import List ListNotations.
 Open Scope Z_scope.
 
@@ -31,6 +31,30 @@ Theorem C15_no_capture_outside_errorf : forall fuel env f a acts o,
 Proof. exact no_capture_outside_errorf. Qed.
 Print Assumptions C15_no_capture_outside_errorf.
 
+(* nested printers (Print/Printf called from SafeFormat/Format methods, Sprintfn callbacks, the
+   error hook): the enclosing printer's %w bookkeeping is untouched by the nested call whatever
+   happens in it; the nested printer starts without the permission, a %w reaching its dispatch
+   is a bad verb, and it ends - for the real evaluator, at any fuel - without a capture *)
+Theorem C15_nested_call_keeps_the_capture : forall rec c s,
+  wrapErrs (snd (nested rec c s)) = wrapErrs s /\ wrappedErr (snd (nested rec c s)) = wrappedErr s.
+Proof. exact nested_keeps_capture. Qed.
+Print Assumptions C15_nested_call_keeps_the_capture.
+
+Theorem C15_w_in_a_nested_printer_is_a_bad_verb : forall rec env l o a,
+  let s := set_arg (fresh_pp l o) (Some a) in
+  handleMethods rec env 119 s =
+  (modify (fun s => set_wrapErrs (set_wrappedErr s None) false) ;;; rec (CBadVerb 119) ;;; ret true) s.
+Proof.
+  intros rec env l o a s. apply (w_without_permission_is_bad_verb rec env s a); try reflexivity.
+  split; reflexivity.
+Qed.
+Print Assumptions C15_w_in_a_nested_printer_is_a_bad_verb.
+
+Theorem C15_nested_run_never_captures : forall fuel env c l o,
+  let s' := snd (ev fuel env c (fresh_pp l o)) in wrapErrs s' = false /\ wrappedErr s' = None.
+Proof. intros fuel env c l o. exact (nested_run_never_captures (ev fuel env) c l o (pw_ev fuel env)). Qed.
+Print Assumptions C15_nested_run_never_captures.
+
 (* Non-vacuity: HelperForErrorf("x %w", err) on the model returns err; with a second %w, nil. *)
 Example C15_nonvacuous :
   let t := mkT [69]%N false false in
@@ -38,4 +62,16 @@ Example C15_nonvacuous :
   (match errorf 20 (mkEnv [] None) [120;32;37;119]%N [e] with
    | ROk o => o_err o = Some e /\ o_bytes o = [120;32;226;128;185;98;97;100;226;128;186]%N | _ => False end) /\
   (match errorf 20 (mkEnv [] None) [37;119;37;119]%N [e; e] with ROk o => o_err o = None | _ => False end).
+Proof. vm_compute. repeat split. Qed.
+
+(* ... and a %w inside the Printf of a SafeFormat method: a bad verb there, while the outer %w's
+   capture is kept *)
+Example C15_nested_nonvacuous :
+  let t := mkT [69]%N false false in
+  let e := VUser t (mkI false false true false false false) false (VStruct t []) [ARet [98;97;100]%N] in
+  let tf := mkT [70]%N false false in
+  let sf := VUser tf (mkI true false false false false false) false (VStruct tf []) [APrintf [110;58;37;119]%N [e]] in
+  (match errorf 30 (mkEnv [] None) [37;118]%N [sf] with
+   | ROk o => o_err o = None /\ o_bytes o = [110;58;37;33;119;40;69;61;123;125;41]%N | _ => False end) /\
+  (match errorf 30 (mkEnv [] None) [37;119;32;37;118]%N [e; sf] with ROk o => o_err o = Some e | _ => False end).
 Proof. vm_compute. repeat split. Qed.
